@@ -268,7 +268,7 @@ def run_qgroups(desc, res):
         res.distinct += 1
         res.hit("group_sets_checked")
         try:
-            got = bus.run_sequence(QueryGroups(address.GearShort(g % 64) if g % 2 else g % 64))
+            got = bus.run_sequence(QueryGroups(address.GearShort(g % 64) if g % 2 else g % 64) if g % 5 else QueryGroups(addr=g % 64))
         except Exception as e:
             res.violation(f"C08/QueryGroups/raised/{type(e).__name__}", f"membership {sorted(want)}: {type(e).__name__}: {e}", {"groups": sorted(want)})
             continue
@@ -355,7 +355,7 @@ def run_setgroups(desc, seed, res):
         wit = {"current": sorted(curset), "requested": sorted(reqset), "destination": kind,
                "dest_group": getattr(dest, "group", None)}
         try:
-            bus.run_sequence(SetGroups(dest, set(reqset)))
+            bus.run_sequence(SetGroups(dest, set(reqset)) if idx % 3 else SetGroups(groups=set(reqset), addr=dest))
         except Exception as e:
             res.violation(f"C08/SetGroups/raised/{type(e).__name__}", f"{type(e).__name__}: {e}", {**wit, "tb": short_tb(e)})
             continue
